@@ -17,6 +17,10 @@ ASSUMPTIONS = [
     "(dischargeable by the C11 development: std_parse (dsse_payload_bytes t) = sort_keys t)",
     "Section variables rule_ok / expiry_ok of model/Validate.v are instantiated in model/ValidateInst.v with unpack_rule (C03) and "
     "parse_expiry_ns (C06); pem_kind (what decodeAndParse makes of a PEM string) is an oracle computed with Go's crypto/x509 per case",
+    "strings of metadata values are taken as they appear in the file (valid UTF-8): json.Marshal's replacement of invalid UTF-8 by "
+    "U+FFFD happens below the tree level of C12 (modelled by utf8_sanitize in C11's to_json); the harness generates valid UTF-8 only",
+    "the richer value universe gv of model/Loader.v (nil vs empty, stale slice capacity, struct fields by JSON name) is C12's own; "
+    "it is not yet identified with gval of model/ToJson.v (C11) — both are compared with the same Go encoder in their own checks",
     "regexp ^[a-fA-F0-9]+$ is modelled as 'non-empty and every byte in the class'",
     "float64 range errors for numbers with huge exponents inside interface{}-typed fields (by-products, environment) are not modelled; "
     "encoding/json's nesting limit is not modelled",
